@@ -22,7 +22,7 @@ def seeded_table():
     for p in sorted(glob.glob(os.path.join(VERIF, 'seeded', '*', 'meta.json'))):
         m = json.load(open(p))
         rows.append('| %s | %s | %s | %s |' % (m['id'], (m.get('summary') or '').replace('|', '\\|')[:260], (m.get('needs') or '').replace('|', '\\|')[:220],
-                                              ', '.join(m.get('detected_by') or []) or '**missed**'))
+                                              ', '.join(m.get('detected_by') or []) or ('outside the specified zone (no verdict by design)' if m.get('outside_specified_zone') else '**missed**')))
     return '\n'.join(rows)
 
 
